@@ -673,11 +673,27 @@ func (e *Enc) enterLoop(fr *Frame, li *LoopInfo, h *ssa.BasicBlock, inEdges []Te
 			}
 		}
 	}
+	// "~K": K is only modified at objects this function allocated itself
+	// (allocations, append results, stores into local cells). Memory that
+	// existed when the frame was entered is then unchanged by the loop, which
+	// is assumed below (justified syntactically, not an obligation).
+	freshOnly := map[string]bool{}
+	for k := range mods {
+		if strings.HasPrefix(k, "~") {
+			base := k[1:]
+			if !mods[base] && !mods["*"] {
+				freshOnly[base] = true
+			}
+			mods[base] = true
+			delete(mods, k)
+		}
+	}
 	var mk []string
 	for k := range mods {
 		mk = append(mk, k)
 	}
 	sortStrings(mk)
+	a0 := e.get(fr.entry, "alloc", "Int")
 	for _, k := range mk {
 		if k == "*" {
 			continue
@@ -690,7 +706,13 @@ func (e *Enc) enterLoop(fr *Frame, li *LoopInfo, h *ssa.BasicBlock, inEdges []Te
 		if !ok {
 			continue
 		}
+		pre := e.get(st, k, srt)
 		st.m[k] = e.B.declConst(k+"@loop", srt)
+		if freshOnly[k] && strings.HasPrefix(k, "HS.") {
+			q := e.B.freshName("fr")
+			e.B.assume(fmt.Sprintf("(forall ((%s Int)) (! (=> (>= %s %s) (= (select %s %s) (select %s %s))) :pattern ((select %s %s))))",
+				q, q, a0, st.m[k], q, pre, q, st.m[k], q))
+		}
 	}
 	// loop-carried registers
 	hphi := map[*ssa.Phi]Val{}
@@ -776,18 +798,18 @@ func (e *Enc) scanBlockMods(fn *ssa.Function, b *ssa.BasicBlock, mods map[string
 		case *ssa.Alloc:
 			mods["alloc"] = true
 			elem := t.Type().(*types.Pointer).Elem()
-			mods[e.B.heapName(elem)] = true
+			mods["~"+e.B.heapName(elem)] = true
 			stateSorts[e.B.heapName(elem)] = e.B.heapSort(elem)
 		case *ssa.MakeSlice:
 			mods["alloc"] = true
 			elem := t.Type().Underlying().(*types.Slice).Elem()
-			mods[e.B.heapName(elem)] = true
+			mods["~"+e.B.heapName(elem)] = true
 			stateSorts[e.B.heapName(elem)] = e.B.heapSort(elem)
 		case *ssa.Slice:
 			if pt, ok := t.X.Type().Underlying().(*types.Pointer); ok {
 				mods["alloc"] = true
 				elem := pt.Elem().Underlying().(*types.Array).Elem()
-				mods[e.B.heapName(elem)] = true
+				mods["~"+e.B.heapName(elem)] = true
 				stateSorts[e.B.heapName(elem)] = e.B.heapSort(elem)
 			}
 		case *ssa.MakeMap:
@@ -839,7 +861,12 @@ func (e *Enc) scanAddrMods(addr ssa.Value, mods map[string]bool) {
 		break
 	}
 	elem := addr.Type().Underlying().(*types.Pointer).Elem()
-	mods[e.B.heapName(elem)] = true
+	if _, isAlloc := addr.(*ssa.Alloc); isAlloc {
+		// a store into a cell this function allocated: pre-existing memory untouched
+		mods["~"+e.B.heapName(elem)] = true
+	} else {
+		mods[e.B.heapName(elem)] = true
+	}
 	stateSorts[e.B.heapName(elem)] = e.B.heapSort(elem)
 }
 
